@@ -87,6 +87,39 @@ macro_rules! kat {
             h.update(malf.as_bytes());
             println!("MALF {} {}", $name, malf);
         }
+        // a slow signing job: an accepted key with s1 = s2 = 0 and every t0 coefficient at a range end (mixed signs) makes most
+        // attempts fail the ||c t0|| test, so signing needs hundreds to thousands of iterations - and still succeeds (or runs
+        // into the loop limit) identically in every configuration
+        {
+            let eta_code: u32 = if api::SK_LEN == 4032 { 4 } else { 2 };
+            let bits: usize = if api::SK_LEN == 4032 { 4 } else { 3 };
+            let mut skb = [0u8; api::SK_LEN];
+            for (i, b) in skb.iter_mut().enumerate().take(128) { *b = (i as u8).wrapping_mul(37) ^ 0x5c; }
+            let t0_len = 416 * (($name).parse::<usize>().map(|n| match n { 44 => 4, 65 => 6, _ => 8 }).unwrap());
+            let s_len = api::SK_LEN - 128 - t0_len;
+            let (mut acc, mut nb, mut o) = (0u64, 0usize, 128usize);
+            for _ in 0..(s_len * 8 / bits) {
+                acc |= u64::from(eta_code) << nb; nb += bits;
+                while nb >= 8 { skb[o] = (acc & 0xff) as u8; acc >>= 8; nb -= 8; o += 1; }
+            }
+            let mut x: u64 = 0x9e3779b97f4a7c15;
+            let (mut acc, mut nb) = (0u64, 0usize);
+            for _ in 0..(t0_len * 8 / 13) {
+                x ^= x << 13; x ^= x >> 7; x ^= x << 17;
+                acc |= (if x & 1 == 0 { 0u64 } else { 8191u64 }) << nb; nb += 13;
+                while nb >= 8 { skb[o] = (acc & 0xff) as u8; acc >>= 8; nb -= 8; o += 1; }
+            }
+            let hk = api::PrivateKey::try_from_bytes(skb).unwrap();
+            let mut slow = String::new();
+            for m in 0u32..4 {
+                let mut rng = Fixed([0u8; 32]);
+                match hk.try_sign_with_rng(&mut rng, &m.to_le_bytes(), b"slow") {
+                    Ok(sg) => { h.update(&sg); slow.push('s'); }
+                    Err(_) => { h.update(&[0xee]); slow.push('e'); }
+                }
+            }
+            println!("SLOW {} {}", $name, slow);
+        }
         let d = h.finalize();
         let hex: String = d.iter().map(|b| format!("{:02x}", b)).collect();
         println!("KAT {} {}", $name, hex);
